@@ -5,6 +5,7 @@ import (
 	"fmt"
 	"math/rand/v2"
 	"sort"
+	"strings"
 	"sync/atomic"
 	"testing"
 	"time"
@@ -143,7 +144,18 @@ func TestVerif_C08(t *testing.T) {
 				time.Sleep(100 * time.Microsecond)
 			}
 			if g.left.Load() > 0 {
-				fail("session/child-blocked", "a child could not hand its output to the merged handler within the bound (client is reading)", g)
+				// a violation only with a witness: a child goroutine parked in its channel send
+				blocked := ""
+				for _, gr := range vk.Goroutines() {
+					if strings.Contains(gr.Stack, "mChild).emit") {
+						blocked = gr.Stack
+					}
+				}
+				if blocked != "" {
+					fail("session/child-blocked", "a child could not hand its output to the merged handler within the bound (client is reading): "+blocked, g)
+				} else {
+					rep.Inconclusive("C08: scripted children did not finish their scripts within the bound, none is blocked in a send")
+				}
 				return
 			}
 			if !cl.barrier(fmt.Sprintf("barrier-%d", q)) {
